@@ -69,9 +69,9 @@ func (u *Universe) Def(name string) *TypeDef {
 }
 
 // Convenience constructors.
-func I(bits uint64) *Type   { return &Type{K: Int, Bits: bits} }
-func F(kind string) *Type   { return &Type{K: Float, FK: kind} }
-func P(elem *Type) *Type    { return &Type{K: Ptr, Elem: elem} }
+func I(bits uint64) *Type { return &Type{K: Int, Bits: bits} }
+func F(kind string) *Type { return &Type{K: Float, FK: kind} }
+func P(elem *Type) *Type  { return &Type{K: Ptr, Elem: elem} }
 func PA(elem *Type, as uint64) *Type {
 	return &Type{K: Ptr, Elem: elem, AddrSpace: as}
 }
